@@ -48,4 +48,19 @@ def judge (j : Judge) : List (Ev × List Nat) → Bool
 def spec (evs : List Ev) (obs : List (List Nat)) : Bool :=
   evs.length == obs.length && judge ⟨[], []⟩ (evs.zip obs)
 
+
+/-- the same judge for histories that contain failed `request()` calls: such a call queues its
+own attempts and nothing else, and it must not change what later announcements do -/
+def judge2 (j : Judge) : List (Ev2 × List Nat) → Bool
+  | [] => true
+  | (.request k n, obs) :: r => obs == List.replicate n k && judge2 j r
+  | (.ev (.errors ks), obs) :: r => obs.isEmpty && judge2 { j with unsupported := ks } r
+  | (.ev (.announce w), obs) :: r =>
+    match expected j (dictOf w) with
+    | (q, j', true) => obs == q && judge2 j' r
+    | (q, _, false) => q.isPrefixOf obs
+
+def spec2 (evs : List Ev2) (obs : List (List Nat)) : Bool :=
+  evs.length == obs.length && judge2 ⟨[], []⟩ (evs.zip obs)
+
 end PlumVerif.C15
